@@ -1916,7 +1916,12 @@ class LLParser:
                             parser_summary, cycle_data, nullables)
 
                 if cur_symbol in processed_symbols:
-                    _next_prod(stack)
+                    # cur_symbol itself can't lead to a cycle, but if it is nullable
+                    # the symbols after it still can
+                    if cur_symbol in nullables:
+                        _next_symbol(stack)
+                    else:
+                        _next_prod(stack)
                     continue
                 # cur_symbol is non-terminal. May need to go deeper
                 if cur_symbol_id > 0:
